@@ -211,6 +211,10 @@ func ParseBuildLabelParts(target, currentPath, subrepo string) (string, string, 
 	if strings.HasSuffix(target, "/...") {
 		return strings.TrimRight(target[2:len(target)-3], "/"), "...", ""
 	} else if idx := strings.LastIndexByte(target, '/'); idx != -1 {
+		// The implied target name must be as valid as an explicit one, otherwise the label cannot be printed and read back.
+		if !validateTargetName(target[idx+1:]) {
+			return "", "", ""
+		}
 		return target[2:], target[idx+1:], subrepo
 	}
 	return target[2:], target[2:], subrepo
@@ -222,13 +226,18 @@ func parseBuildLabelSubrepo(target, currentPath string) (string, string, string)
 	if idx == -1 {
 		// if subrepo and target are the same name, then @subrepo syntax will also suffice
 		if idx = strings.IndexByte(target, ':'); idx == -1 {
+			name := target
 			if idx := strings.LastIndexByte(target, '/'); idx != -1 {
-				return "", target[idx+1:], target
+				name = target[idx+1:]
 			}
-			return "", target, target
+			if !validateTargetName(name) {
+				return "", "", ""
+			}
+			return "", name, target
 		}
 	}
-	if strings.ContainsRune(target[:idx], ':') {
+	// A subrepo name ending in a slash would merge with the following // when printed.
+	if strings.ContainsRune(target[:idx], ':') || strings.HasSuffix(target[:idx], "/") {
 		return "", "", ""
 	}
 	pkg, name, _ := ParseBuildLabelParts(target[idx:], currentPath, "")
